@@ -255,7 +255,17 @@ def make_sym_fluid(is_gas, name="symfluid", comp_linear=True, const_props=()):
     }
     if is_gas:
         slope, offset = Sym(z3.Real("K_slope")), Sym(z3.Real("K_offset"))
-        props["compressibility"] = FluidPropertyLinear(slope, offset)
+
+        class PosLinear(FluidPropertyLinear):
+            """the real linear property class; physical admissibility (K > 0) is recorded as a
+            fact at every evaluation point"""
+            def get_at_value(self, arg):
+                out = super().get_at_value(arg)
+                for v in (_np.asarray(out, dtype=object).ravel()):
+                    if isinstance(v, Sym):
+                        fact(v.t > 0)
+                return out
+        props["compressibility"] = PosLinear(slope, offset)
         props["der_compressibility"] = FluidPropertyConstant(slope)
         props["lhv"] = FluidPropertyConstant(Sym(z3.Real("lhv")))
         props["hhv"] = FluidPropertyConstant(Sym(z3.Real("hhv")))
@@ -396,4 +406,3 @@ def uninstall():
         mod, attr, val = _SAVED.pop()
         setattr(mod, attr, val)
     _snpmod.uninstall()
-    logging.disable(logging.NOTSET)
